@@ -50,6 +50,7 @@ type world struct {
 	addrOf    []int       // account index -> index of common.BytesToAddress(bytes) (itself for 20-byte accounts); addrOf[0] = 0
 	addrU     []int       // address universe for balances / escrow: 0 (zero address) and every 20-byte account
 	senders   []int       // model indices of the senders
+	actors    []int       // senders and the funded contract accounts: transaction sources (a contract acts through UNSTAKE-type opcodes; here its address is the transaction source)
 	contracts []int       // model indices of the accounts that carry code
 	ncOf      map[int]int // sender index -> index of the address the main-node stub reports for it
 	mnCode    bool        // the main-node contract is deployed
@@ -167,9 +168,12 @@ func newWorldCfg(r *hx.Rng, sub bool, regime int) *world {
 		}
 	}
 	adb := w.ADB
+	w.actors = append([]int{}, w.senders...)
 	for _, c := range w.contracts {
 		adb.SetNonce(w.address(c), 1)
 		adb.SetCode(w.address(c), []byte{0x00})
+		adb.SetBalance(w.address(c), tokens(20))
+		w.actors = append(w.actors, c)
 	}
 	adb.SetBalance(addr(1), tokens(uint64(15000+r.Intn(10000))))
 	adb.SetBalance(addr(2), tokens(uint64(3000+r.Intn(4000))))
@@ -208,6 +212,7 @@ type ostate struct {
 	miners []mrec
 	bals   []*big.Int // per entry of addrU
 	esc    []escEntry
+	gm     []int // the typeless MinerManager.GetMiner(id) per id: 0 nil, 1 validator, 2 proposer
 	bad    string
 }
 
@@ -257,6 +262,13 @@ func (w *world) observeReg(adb *account.AccountDB) ostate {
 	}
 	for _, a := range w.addrU {
 		o.bals = append(o.bals, adb.GetBalance(w.address(a)))
+	}
+	for _, id := range w.ids {
+		g := 0
+		if m := service.MinerManagerImpl.GetMiner(id, adb); m != nil {
+			g = int(m.Type) + 1
+		}
+		o.gm = append(o.gm, g)
 	}
 	return o
 }
@@ -441,9 +453,12 @@ func (w *world) pickId(r *hx.Rng, pre ostate, registered bool) int {
 func (w *world) pickHeld(r *hx.Rng, pre ostate) (int, int) {
 	var cand []mrec
 	for _, m := range pre.miners {
-		for _, s := range w.senders {
+		for _, s := range w.actors {
 			if m.Acct == s {
 				cand = append(cand, m)
+				if w.isContract(s) { // contract-owned miners are rarer: weigh them up
+					cand = append(cand, m, m)
+				}
 			}
 		}
 	}
@@ -557,7 +572,7 @@ func (w *world) generate(r *hx.Rng, pre ostate) gtx {
 			}
 			// let the holder ask, most of the time
 			if r.Intn(5) > 0 {
-				for _, s := range w.senders {
+				for _, s := range w.actors {
 					if s == m.Acct {
 						src = s
 					}
@@ -601,7 +616,7 @@ func (w *world) generate(r *hx.Rng, pre ostate) gtx {
 			id = hid
 		}
 		if m := pre.getMiner(id); m != nil && r.Intn(5) > 0 {
-			for _, s := range w.senders {
+			for _, s := range w.actors {
 				if s == m.Acct {
 					src = s
 				}
@@ -620,7 +635,7 @@ func (w *world) generate(r *hx.Rng, pre ostate) gtx {
 			desc: map[string]interface{}{"tx": "change", "src": src, "id": id, "account": acct, "json": jsonOK}}
 	default:
 		// prefer a sender that holds a miner
-		if _, hs := w.pickHeld(r, pre); hs != 0 && r.Intn(4) > 0 {
+		if _, hs := w.pickHeld(r, pre); hs != 0 && indexOf(w.senders, hs) >= 0 && r.Intn(4) > 0 {
 			src = hs
 		}
 		tx := newTx(types.TransactionTypeOperatorNode, w.srcHex(src), "")
@@ -1000,6 +1015,15 @@ func (w *world) runCaseBlock(r *hx.Rng, res *hx.Result, h uint64, g []gtx, casto
 				res.Violate("C20/stake-accounting:"+g[i].kind, fmt.Sprintf("after %s id %d: registry stake %d, applied+added-refunded %d", tag, j+1, got, want), input)
 				w.ghost[string(id)] = got
 			}
+			wantGm := 0
+			if cur.find(1, j+1) != nil {
+				wantGm = 2
+			} else if cur.find(0, j+1) != nil {
+				wantGm = 1
+			}
+			if cur.gm[j] != wantGm {
+				res.Violate("C20/views-agree:typeless-getminer", fmt.Sprintf("after %s GetMiner(id %d) without a type answers %d (0 nil, 1 validator, 2 proposer); the typed lookups give %d", tag, j+1, cur.gm[j], wantGm), input)
+			}
 			if cur.find(0, j+1) != nil && cur.find(1, j+1) != nil {
 				res.Violate("C20/views-agree:id-in-both-registries", fmt.Sprintf("after %s id %d is registered as validator and as proposer", tag, j+1), input)
 			}
@@ -1102,7 +1126,7 @@ func (w *world) runCaseBlock(r *hx.Rng, res *hx.Result, h uint64, g []gtx, casto
 	for i := range g {
 		terms = append(terms, "("+g[i].term+")")
 		m := br.mids[i]
-		obs = append(obs, fmt.Sprintf("TO %d%%N %s %s %s %s %s", codes[i], minersCoq(m.miners), optIds(m.byAcct), nlist(m.iter[0]), nlist(m.iter[1]), w.balsCoq(m.bals)))
+		obs = append(obs, fmt.Sprintf("TO %d%%N %s %s %s %s %s %s", codes[i], minersCoq(m.miners), optIds(m.byAcct), nlist(m.iter[0]), nlist(m.iter[1]), w.balsCoq(m.bals), nlist(m.gm)))
 	}
 	for _, e := range br.rewards {
 		rws = append(rws, fmt.Sprintf("(%d%%N,%d%%N,%s)", e.H, e.A, hx.CoqZ(e.V.String())))
@@ -1176,9 +1200,9 @@ func (w *world) step(r *hx.Rng, res *hx.Result, cs *hx.Cases) {
 	if r.Intn(15) == 0 {
 		// every sender that holds a miner asks for a refund in the same block
 		for _, m := range pre.miners {
-			for _, sdr := range w.senders {
+			for _, sdr := range w.actors {
 				if m.Acct == sdr {
-					amt := []string{"1", "18446744073709551615", strconv.FormatUint(m.Stake/2, 10)}[r.Intn(3)]
+					amt := []string{"1", "18446744073709551615", strconv.FormatUint(m.Stake/2, 10), "18446744073709551615"}[r.Intn(4)]
 					data, _ := json.Marshal(map[string]string{"Amount": amt, "MinerId": common.ToHex(w.ids[m.I-1])})
 					val, _ := strconv.ParseUint(amt, 10, 64)
 					g = append(g, gtx{kind: "refund", src: sdr, tx: newTx(types.TransactionTypeMinerRefund, w.srcHex(sdr), string(data)), id: m.I, amt: amt,
@@ -1508,7 +1532,12 @@ func (w *world) viewsCheck(post ostate, res *hx.Result, input map[string]interfa
 // same block runner as the generated blocks and are written as model cases: coq/C20/KeyModel.v derives the storage
 // keys from the real id bytes and the SHA-256 table, so the model must reproduce the corrupted record.
 func aliasSearch(r *hx.Rng, res *hx.Result, cs *hx.Cases) {
-	for n := 1; n <= 3; n++ {
+	for run := 0; run < 6; run++ {
+		n := run%3 + 1
+		// cross: the victim X is a PROPOSER and the second miner a VALIDATOR whose id is SHA256^n(X): the two registries
+		// are different accounts, the equal keys never meet - harmless for the typed lookups and for the typeless
+		// GetMiner (proposer decode first, validator registry as fallback)
+		cross := run >= 3
 		w := newWorld(r)
 		victim := r.Bytes(32)
 		victim[0] = 0x33
@@ -1520,22 +1549,39 @@ func aliasSearch(r *hx.Rng, res *hx.Result, cs *hx.Cases) {
 		sort.Slice(w.ids, func(i, j int) bool { return bytes.Compare(w.ids[i], w.ids[j]) < 0 })
 		vi, ai := w.idIdx(victim), w.idIdx(alias)
 		s1, s2 := w.senders[0], w.senders[1]
-		apply := func(src int, id int, stake uint64) gtx {
-			md, _ := json.Marshal(types.Miner{Id: w.ids[id-1], PublicKey: []byte{1, 2}, VrfPublicKey: []byte{3}, Type: 0, Stake: stake})
+		apply := func(src int, id int, typ int, stake uint64) gtx {
+			md, _ := json.Marshal(types.Miner{Id: w.ids[id-1], PublicKey: []byte{1, 2}, VrfPublicKey: []byte{3}, Type: byte(typ), Stake: stake})
 			return gtx{kind: "apply", src: src, id: id, stake: stake, tx: newTx(types.TransactionTypeMinerApply, w.srcHex(src), string(md)),
-				term: fmt.Sprintf("TApply %d%%N true 0%%N %d%%N %d%%N 0%%N true", src, id, stake),
-				desc: map[string]interface{}{"tx": "apply", "src": src, "id": id, "stake": stake}}
+				term: fmt.Sprintf("TApply %d%%N true %d%%N %d%%N %d%%N 0%%N true", src, typ, id, stake),
+				desc: map[string]interface{}{"tx": "apply", "src": src, "type": typ, "id": id, "stake": stake}}
 		}
-		blocks := [][]gtx{{apply(s1, vi, 800)}}
+		blocks := [][]gtx{{apply(s1, vi, 0, 800)}}
 		steps := []string{"S1 MinerApply validator id=X stake=800"}
-		if n == 3 { // an aborted victim: refund below the minimum
+		if cross {
+			blocks = [][]gtx{{apply(s1, vi, 1, 2000)}}
+			steps = []string{"S1 MinerApply PROPOSER id=X stake=2000"}
+		}
+		if n == 3 && !cross { // an aborted victim: refund below the minimum
 			data, _ := json.Marshal(map[string]string{"Amount": "401", "MinerId": common.ToHex(victim)})
 			blocks = append(blocks, []gtx{{kind: "refund", src: s1, id: vi, amt: "401", tx: newTx(types.TransactionTypeMinerRefund, w.srcHex(s1), string(data)),
 				term: fmt.Sprintf("TRefund %d%%N true (Some 401%%N) %d%%N", s1, vi), desc: map[string]interface{}{"tx": "refund", "src": s1, "id": vi, "amount": "401"}}})
 			steps = append(steps, "S1 MinerRefund 401 of X (left 399 < 400: aborted)")
 		}
-		blocks = append(blocks, []gtx{apply(s2, ai, 400)})
-		steps = append(steps, fmt.Sprintf("S2 MinerApply validator id=SHA256^%d(X) stake=400", n))
+		if cross {
+			blocks = append(blocks, []gtx{apply(s2, ai, 0, 800)})
+			steps = append(steps, fmt.Sprintf("S2 MinerApply VALIDATOR id=SHA256^%d(X) stake=800", n))
+			data, _ := json.Marshal(map[string]string{"Amount": "100", "MinerId": common.ToHex(alias)})
+			cd, _ := json.Marshal(types.Miner{Id: alias, Account: w.acctBytes(6)})
+			blocks = append(blocks, []gtx{
+				{kind: "refund", src: s2, id: ai, amt: "100", tx: newTx(types.TransactionTypeMinerRefund, w.srcHex(s2), string(data)),
+					term: fmt.Sprintf("TRefund %d%%N true (Some 100%%N) %d%%N", s2, ai), desc: map[string]interface{}{"tx": "refund", "src": s2, "id": ai, "amount": "100"}},
+				{kind: "change", src: s2, id: ai, acct: 6, tx: newTx(types.TransactionTypeMinerChangeAccount, w.srcHex(s2), string(cd)),
+					term: fmt.Sprintf("TChange %d%%N true %d%%N 6%%N", s2, ai), desc: map[string]interface{}{"tx": "change", "src": s2, "id": ai, "account": 6}}})
+			steps = append(steps, "S2 MinerRefund 100 of it, then change-account (both look the miner up by id WITHOUT a type)")
+		} else {
+			blocks = append(blocks, []gtx{apply(s2, ai, 0, 400)})
+			steps = append(steps, fmt.Sprintf("S2 MinerApply validator id=SHA256^%d(X) stake=400", n))
+		}
 		for range blocks {
 			w.h++
 			w.heights[w.h+refundDelay] = true
@@ -1543,14 +1589,17 @@ func aliasSearch(r *hx.Rng, res *hx.Result, cs *hx.Cases) {
 		w.h -= uint64(len(blocks))
 		pre0 := w.observe()
 		scratch := hx.NewResult("")
+		if cross {
+			scratch = res // nothing may go wrong here: the direct checks report to the run's result
+		}
 		var terms []string
 		var before *types.Miner
 		ok := true
 		for bi, g := range blocks {
 			w.h++
 			w.blocks++
-			if bi == len(blocks)-1 {
-				before = service.MinerManagerImpl.GetMinerById(victim, 0, w.ADB)
+			if bi == len(blocks)-1 || (cross && bi == 1) {
+				before = service.MinerManagerImpl.GetMinerById(victim, byte(boolInt(cross)), w.ADB)
 			}
 			br := w.runCaseBlock(r, scratch, w.h, g, 1, nil, w.observe(), map[string]interface{}{})
 			if br.panicked != "" {
@@ -1564,13 +1613,24 @@ func aliasSearch(r *hx.Rng, res *hx.Result, cs *hx.Cases) {
 		if !ok || before == nil {
 			continue
 		}
-		after := service.MinerManagerImpl.GetMinerById(victim, 0, w.ADB)
-		input := map[string]interface{}{"X": common.ToHex(victim), "n": n, "steps": steps}
+		after := service.MinerManagerImpl.GetMinerById(victim, byte(boolInt(cross)), w.ADB)
+		input := map[string]interface{}{"X": common.ToHex(victim), "n": n, "steps": steps, "cross-registry": cross}
 		envTerm := w.envCoq()
 		input["keys"] = w.keyBytes
 		cs.Add(fmt.Sprintf("CS %s %s %s %s", envTerm, w.heightsCoq(), w.stateCoq(pre0), hx.CoqList(terms)), input)
 		w.addLit(fmt.Sprintf("%s %s %s", w.heightsCoq(), w.stateCoq(pre0), hx.CoqList(terms)), input)
 		class := "alias-refused"
+		if cross {
+			al := service.MinerManagerImpl.GetMiner(alias, w.ADB)
+			class = "cross-registry-alias-harmless"
+			if after == nil || after.Stake != before.Stake || !bytes.Equal(after.Account, before.Account) || after.Status != before.Status ||
+				al == nil || al.Type != 0 || al.Stake != 700 || !bytes.Equal(al.Account, w.acctBytes(6)) {
+				class = "cross-registry-alias-broken"
+				res.Violate("C20/views-agree:cross-registry-key-aliasing", "a validator whose id is SHA256^n(id of a proposer): the proposer's record changed, or the validator is not found / not served by the typeless GetMiner (refund 100 and change-account must have succeeded)", input)
+			}
+			res.Count(class, fmt.Sprintf("cross%d:%s", n, class), true)
+			continue
+		}
 		switch {
 		case after == nil:
 			class = "alias-victim-gone"
@@ -1920,3 +1980,12 @@ func switchNotes(res *hx.Result) {
 	}
 	res.Note("configuration switches on the execution path and the values the runs covered (dev chain config; the proposal fork heights are moved per world family): " + strings.Join(lines, " | "))
 }
+
+func boolInt(b bool) int {
+	if b {
+		return 1
+	}
+	return 0
+}
+
+func (w *world) isContract(i int) bool { return indexOf(w.contracts, i) >= 0 }
